@@ -5,7 +5,6 @@ namespace Pew.Thermo
 
 /-- hypotheses for reading channel `ci` back from the samples-in-rows export -/
 structure RowsOK {α : Type} (x : Ext α) (sh : Nat → String) (a : Acq) (ci : Nat) : Prop where
-  nsamples : 0 < a.samples.length
   nscans : 0 < a.nscans
   nelements : 0 < a.elements.length
   distinct : a.elements.Nodup
@@ -15,9 +14,20 @@ structure RowsOK {α : Type} (x : Ext α) (sh : Nat → String) (a : Acq) (ci : 
   /-- the channel row is compared after truncation to 7 characters: the requested channel is recognisable -/
   chans : ∀ c, c < a.channels.length → (trunc 7 (a.chan c) == a.chan ci) = (c == ci)
   /-- scan numbers survive `str` → 16-character field → `int` -/
-  scans : ∀ s, s < a.nscans → x.readNat (trunc 16 (sh s)) = some s
+  scans : ∀ s, s < a.nscans → x.readInt (trunc 16 (sh s)) = some (s : Int)
+  /-- `np.genfromtxt` cuts a sample row at a `#`: no sample name and no exported value contains one -/
+  sampleHash : ∀ s ∈ a.samples, hasHash s = false
+  valueHash : ∀ i, i < a.samples.length → ∀ s, s < a.nscans → ∀ e, e < a.elements.length → ∀ c, c < a.channels.length →
+    hasHash (a.value i s e c) = false
 
 def blankHdr : Hdr := { run := "", scan := "", name := "", type := "" }
+
+/-- the column of the line terminators: the last field of every rendered line -/
+def eolHdr : Hdr := { run := "\n", scan := "\n", name := "\n", type := "\n" }
+
+theorem colOk_eol (chan : String) : colOk chan eolHdr = false := by
+  have : (trunc 8 "\n" == "MainRuns") = false := by decide
+  simp [colOk, eolHdr, this]
 
 def hdrOf (sh : Nat → String) (a : Acq) (x : Nat × Nat × Nat) : Hdr :=
   { run := "MainRuns", scan := sh x.1, name := a.elem x.2.1, type := a.chan x.2.2 }
@@ -113,17 +123,20 @@ theorem map_elems {β : Type} (a : Acq) (F : String → β) :
   rw [List.map_map]
   rfl
 
+theorem sample_mem (a : Acq) (i : Nat) (hi : i < a.samples.length) : a.samples.getD i "" ∈ a.samples := by
+  simp [List.getD, List.getElem?_eq_getElem hi]
+
 theorem readRowsH_render {α : Type} (x : Ext α) (sh : Nat → String) (comma : Bool) (a : Acq) (ci : Nat)
     (h : RowsOK x sh a ci) :
     readRowsH x comma (a.chan ci)
-      (blankHdr :: blankHdr :: ((enumRows a.nscans a.elements.length a.channels.length).map (hdrOf sh a) ++ [blankHdr]))
+      (blankHdr :: blankHdr :: ((enumRows a.nscans a.elements.length a.channels.length).map (hdrOf sh a) ++ [eolHdr]))
       ((List.range a.samples.length).map (fun i => a.samples.getD i "" :: "<Identifier>" ::
-        ((enumRows a.nscans a.elements.length a.channels.length).map (fun x => a.value i x.1 x.2.1 x.2.2) ++ [""])))
+        ((enumRows a.nscans a.elements.length a.channels.length).map (fun x => a.value i x.1 x.2.1 x.2.2) ++ ["\n"])))
     = some (specImg x comma a ci) := by
-  obtain ⟨hn, hm, hk, hnd, hlab, hci, hch, hsc⟩ := h
-  have hsel : (blankHdr :: blankHdr :: ((enumRows a.nscans a.elements.length a.channels.length).map (hdrOf sh a) ++ [blankHdr])).filter (colOk (a.chan ci))
+  obtain ⟨hm, hk, hnd, hlab, hci, hch, hsc, hsh, hvh⟩ := h
+  have hsel : (blankHdr :: blankHdr :: ((enumRows a.nscans a.elements.length a.channels.length).map (hdrOf sh a) ++ [eolHdr])).filter (colOk (a.chan ci))
       = (rowsSel a.nscans a.elements.length ci).map (hdrOf sh a) := by
-    simp only [List.filter_cons, colOk_blank, Bool.false_eq_true, if_false, List.filter_append, List.filter_nil,
+    simp only [List.filter_cons, colOk_blank, colOk_eol, Bool.false_eq_true, if_false, List.filter_append, List.filter_nil,
       List.append_nil, List.filter_map]
     congr 1
     have := enumRows_filter a.nscans a.elements.length a.channels.length ci hci
@@ -133,52 +146,77 @@ theorem readRowsH_render {α : Type} (x : Ext α) (sh : Nat → String) (comma :
     intro y _
     simp [colOk_hdrOf]
   have hmem0 : (0, 0, ci) ∈ rowsSel a.nscans a.elements.length ci := mem_rowsSel.mpr ⟨hm, hk, rfl⟩
-  have hany : (blankHdr :: blankHdr :: ((enumRows a.nscans a.elements.length a.channels.length).map (hdrOf sh a) ++ [blankHdr])).any
+  have hany : (blankHdr :: blankHdr :: ((enumRows a.nscans a.elements.length a.channels.length).map (hdrOf sh a) ++ [eolHdr])).any
       (fun h => trunc 8 h.run == "MainRuns") = true := by
     simp only [List.any_cons, List.any_append, List.any_map, Bool.or_eq_true]
     right; right; left
     rw [List.any_eq_true]
     exact ⟨(0, 0, ci), mem_enumRows.mpr ⟨hm, hk, hci⟩, by simp [hdrOf, trunc8_mainruns]⟩
-  have hscan : allSome (((rowsSel a.nscans a.elements.length ci).map (hdrOf sh a)).map (fun h => x.readNat (trunc 16 h.scan)))
-      = some ((rowsSel a.nscans a.elements.length ci).map (·.1)) := by
-    rw [List.map_map]
+  have hscan : allSome (((rowsSel a.nscans a.elements.length ci).map (hdrOf sh a)).map (fun h => x.readInt (trunc 16 h.scan)))
+      = some (((rowsSel a.nscans a.elements.length ci).map (·.1)).map (fun (y : Nat) => (y : Int))) := by
+    rw [List.map_map, List.map_map]
     apply allSome_map
     intro y hy
     exact hsc y.1 (mem_rowsSel.mp hy).1
   have hnames : ((rowsSel a.nscans a.elements.length ci).map (hdrOf sh a)).map (fun h => trunc 32 h.name)
-      = (List.range a.nscans).flatMap (fun _ => a.elements) := by
+      = (rowsSel a.nscans a.elements.length ci).map (fun y => a.elem y.2.1) := by
     rw [List.map_map]
+    apply List.map_congr_left
+    intro y hy
+    simp only [Function.comp, hdrOf]
+    exact hlab _ (elem_mem a y.2.1 (mem_rowsSel.mp hy).2.1)
+  have hblocks : (rowsSel a.nscans a.elements.length ci).map (fun y => a.elem y.2.1)
+      = (List.range a.nscans).flatMap (fun _ => a.elements) := by
     unfold rowsSel
     rw [List.map_flatMap]
     congr 1
     funext s
     rw [List.map_map]
     conv => rhs; rw [← map_getD_range a.elements]
-    apply List.map_congr_left
-    intro e he
-    simp only [Function.comp, hdrOf]
-    exact hlab _ (elem_mem a e (List.mem_range.mp he))
-  have hw : maxNat ((rowsSel a.nscans a.elements.length ci).map (·.1)) + 1 = a.nscans := by
-    apply maxNat_eq _ _ hm
+    rfl
+  have hw : maxInt (((rowsSel a.nscans a.elements.length ci).map (·.1)).map (fun (y : Nat) => (y : Int))) + 1 = (a.nscans : Int) := by
+    apply maxInt_eq _ _ hm
     · intro y hy
       obtain ⟨z, hz, rfl⟩ := List.mem_map.mp hy
       exact (mem_rowsSel.mp hz).1
     · exact List.mem_map.mpr ⟨(a.nscans - 1, 0, ci), mem_rowsSel.mpr ⟨by simp; omega, hk, rfl⟩, rfl⟩
+  -- the sample rows as `genfromtxt` sees them
+  have hlines : gfLines comma ((List.range a.samples.length).map (fun i => a.samples.getD i "" :: "<Identifier>" ::
+        ((enumRows a.nscans a.elements.length a.channels.length).map (fun x => a.value i x.1 x.2.1 x.2.2) ++ ["\n"])))
+      = (List.range a.samples.length).map (fun i => lstrip (fixDec comma (a.samples.getD i "")) :: "<Identifier>" ::
+        ((enumRows a.nscans a.elements.length a.channels.length).map (fun x => fixDec comma (a.value i x.1 x.2.1 x.2.2)) ++ [""])) := by
+    apply gfLines_map
+    · intro i hi
+      have hi' := List.mem_range.mp hi
+      simp only [List.map_cons, List.map_append, List.map_map, List.map_nil, fixDec_ident, fixDec_eol]
+      have := gfSplit_line (fixDec comma (a.samples.getD i ""))
+        ("<Identifier>" :: (enumRows a.nscans a.elements.length a.channels.length).map (fun x => fixDec comma (a.value i x.1 x.2.1 x.2.2)))
+        (by
+          intro g hg
+          rcases List.mem_cons.mp hg with hg | hg
+          · rw [hg, hasHash_fixDec]; exact hsh _ (sample_mem a i hi')
+          · rcases List.mem_cons.mp hg with hg | hg
+            · rw [hg]; exact hasHash_ident
+            · obtain ⟨y, hy, rfl⟩ := List.mem_map.mp hg
+              obtain ⟨h1, h2, h3⟩ := mem_enumRows.mp hy
+              rw [hasHash_fixDec]; exact hvh i hi' y.1 h1 y.2.1 h2 y.2.2 h3)
+      simpa [Function.comp_def] using this
+    · intro i _; rfl
   have hdata : ∀ i : Nat,
-      (((a.samples.getD i "" :: "<Identifier>" ::
-          ((enumRows a.nscans a.elements.length a.channels.length).map (fun y => a.value i y.1 y.2.1 y.2.2) ++ [""])).zip
-        (blankHdr :: blankHdr :: ((enumRows a.nscans a.elements.length a.channels.length).map (hdrOf sh a) ++ [blankHdr]))).filter
-          (fun p => colOk (a.chan ci) p.2)).map (fun p => (x.parse (fixDec comma p.1), trunc 32 p.2.name))
+      (((lstrip (fixDec comma (a.samples.getD i "")) :: "<Identifier>" ::
+          ((enumRows a.nscans a.elements.length a.channels.length).map (fun y => fixDec comma (a.value i y.1 y.2.1 y.2.2)) ++ [""])).zip
+        (blankHdr :: blankHdr :: ((enumRows a.nscans a.elements.length a.channels.length).map (hdrOf sh a) ++ [eolHdr]))).filter
+          (fun p => colOk (a.chan ci) p.2)).map (fun p => (x.parse p.1, trunc 32 p.2.name))
       = (rowsSel a.nscans a.elements.length ci).map (fun y => (x.parse (fixDec comma (a.value i y.1 y.2.1 y.2.2)), a.elem y.2.1)) := by
     intro i
     rw [List.zip_cons_cons, List.zip_cons_cons, zip_map_append_single]
-    simp only [List.filter_cons, colOk_blank, Bool.false_eq_true, if_false, List.filter_append, List.filter_nil,
+    simp only [List.filter_cons, colOk_blank, colOk_eol, Bool.false_eq_true, if_false, List.filter_append, List.filter_nil,
       List.append_nil, List.filter_map, List.map_map]
     have := enumRows_filter a.nscans a.elements.length a.channels.length ci hci
       (fun c => trunc 7 (a.chan c) == a.chan ci) hch
     rw [← this]
     have hf : (enumRows a.nscans a.elements.length a.channels.length).filter
-        ((fun p : String × Hdr => colOk (a.chan ci) p.2) ∘ fun y => (a.value i y.1 y.2.1 y.2.2, hdrOf sh a y))
+        ((fun p : String × Hdr => colOk (a.chan ci) p.2) ∘ fun y => (fixDec comma (a.value i y.1 y.2.1 y.2.2), hdrOf sh a y))
         = (enumRows a.nscans a.elements.length a.channels.length).filter (fun y => trunc 7 (a.chan y.2.2) == a.chan ci) := by
       apply List.filter_congr
       intro y _
@@ -189,31 +227,19 @@ theorem readRowsH_render {α : Type} (x : Ext α) (sh : Nat → String) (comma :
     have hy' := (mem_enumRows.mp (List.mem_filter.mp hy).1)
     simp only [Function.comp, hdrOf]
     rw [hlab _ (elem_mem a y.2.1 hy'.2.1)]
-  unfold readRowsH
-  rw [hany, hsel]
-  simp only [Bool.not_true, Bool.false_eq_true, if_false, hscan, hnames, hw]
   have h1 : ((rowsSel a.nscans a.elements.length ci).map (hdrOf sh a)).isEmpty = false := by
     cases hr : rowsSel a.nscans a.elements.length ci with
     | nil => rw [hr] at hmem0; simp at hmem0
     | cons _ _ => rfl
-  have h2 : ((List.range a.samples.length).map (fun i => a.samples.getD i "" :: "<Identifier>" ::
-        ((enumRows a.nscans a.elements.length a.channels.length).map (fun x => a.value i x.1 x.2.1 x.2.2) ++ [""]))).isEmpty = false := by
-    cases hr : List.range a.samples.length with
-    | nil => have := List.range_eq_nil.mp hr; omega
-    | cons _ _ => rfl
-  have h3 : ((List.range a.samples.length).map (fun i => a.samples.getD i "" :: "<Identifier>" ::
-        ((enumRows a.nscans a.elements.length a.channels.length).map (fun x => a.value i x.1 x.2.1 x.2.2) ++ [""]))).any
-      (fun r => decide (r.length < (blankHdr :: blankHdr ::
-        ((enumRows a.nscans a.elements.length a.channels.length).map (hdrOf sh a) ++ [blankHdr])).length)) = false := by
-    rw [List.any_eq_false]
-    intro r hr
-    obtain ⟨i, _, rfl⟩ := List.mem_map.mp hr
-    simp
-  rw [h1, h2, h3, firstApp_blocks a.elements hnd a.nscans hm]
-  simp only [Bool.false_eq_true, if_false, Bool.or_self, List.map_map, Function.comp_def, hdata]
-  rw [map_elems]
+  have h4 : ¬ ((a.nscans : Int) < 0) := by omega
+  unfold readRowsH
+  rw [hany, hsel, hlines]
+  simp only [Bool.not_true, Bool.false_eq_true, if_false, h1, hscan, hnames, hw, h4, Int.toNat_natCast]
+  simp only [List.map_map, Function.comp_def, hdata, List.any_map, List.length_map, bne_self_eq_false]
+  rw [hblocks, firstApp_blocks a.elements hnd a.nscans hm, ← hblocks, map_elems]
   have hpl : allSome ((List.range a.elements.length).map (fun ei =>
-      fitWidth a.nscans ((List.range a.samples.length).map (fun i =>
+      fitCols a.nscans (((rowsSel a.nscans a.elements.length ci).map (fun y => a.elem y.2.1)).filter (fun nm => nm == a.elem ei)).length
+        ((List.range a.samples.length).map (fun i =>
         (((rowsSel a.nscans a.elements.length ci).map
             (fun y => (x.parse (fixDec comma (a.value i y.1 y.2.1 y.2.2)), a.elem y.2.1))).filter
           (fun p => p.2 == a.elem ei)).map (·.1)))))
@@ -222,32 +248,37 @@ theorem readRowsH_render {α : Type} (x : Ext α) (sh : Nat → String) (comma :
     apply allSome_map
     intro ei hei
     have hei' := List.mem_range.mp hei
+    have hsel' := rowsSel_filter_elem a.nscans a.elements.length ci ei hei' (fun e => a.elem e == a.elem ei)
+      (fun e he => elem_inj a hnd e ei he hei')
+    have hcnt : (((rowsSel a.nscans a.elements.length ci).map (fun y => a.elem y.2.1)).filter (fun nm => nm == a.elem ei)).length = a.nscans := by
+      rw [List.filter_map]
+      have hf : (rowsSel a.nscans a.elements.length ci).filter ((fun nm => nm == a.elem ei) ∘ fun y => a.elem y.2.1)
+          = (rowsSel a.nscans a.elements.length ci).filter (fun y => a.elem y.2.1 == a.elem ei) := rfl
+      rw [hf, hsel']
+      simp
     have hrow : ∀ i : Nat, (((rowsSel a.nscans a.elements.length ci).map
             (fun y => (x.parse (fixDec comma (a.value i y.1 y.2.1 y.2.2)), a.elem y.2.1))).filter
           (fun p => p.2 == a.elem ei)).map (·.1)
         = (List.range a.nscans).map (fun s => x.parse (fixDec comma (a.value i s ei ci))) := by
       intro i
       rw [List.filter_map, List.map_map]
-      have := rowsSel_filter_elem a.nscans a.elements.length ci ei hei' (fun e => a.elem e == a.elem ei)
-        (fun e he => elem_inj a hnd e ei he hei')
       have hf : (rowsSel a.nscans a.elements.length ci).filter
           ((fun p : α × String => p.2 == a.elem ei) ∘ fun y => (x.parse (fixDec comma (a.value i y.1 y.2.1 y.2.2)), a.elem y.2.1))
           = (rowsSel a.nscans a.elements.length ci).filter (fun y => a.elem y.2.1 == a.elem ei) := rfl
-      rw [hf, this, List.map_map]
+      rw [hf, hsel', List.map_map]
       rfl
-    simp only [hrow]
-    apply fitWidth_ok
-    intro r hr
-    obtain ⟨i, _, rfl⟩ := List.mem_map.mp hr
-    simp
-  rw [hpl]
+    simp only [hrow, hcnt]
+    exact fitCols_ok _ _
+  have h5 : ∀ (l : List Nat), (l.any fun _ => false) = false := by
+    intro l; induction l <;> simp_all
+  rw [hpl, h5]
   rfl
 
 
 theorem hdr_render (sh : Nat → String) (a : Acq) (cells : List (Nat × Nat × Nat)) :
-    zipHdr ("" :: "" :: (cells.map (fun _ => "MainRuns") ++ [""])) ("" :: "" :: (cells.map (fun x => sh x.1) ++ [""]))
-      ("" :: "" :: (cells.map (fun x => a.elem x.2.1) ++ [""])) ("" :: "" :: (cells.map (fun x => a.chan x.2.2) ++ [""]))
-    = blankHdr :: blankHdr :: (cells.map (hdrOf sh a) ++ [blankHdr]) := by
+    zipHdr ("" :: "" :: (cells.map (fun _ => "MainRuns") ++ ["\n"])) ("" :: "" :: (cells.map (fun x => sh x.1) ++ ["\n"]))
+      ("" :: "" :: (cells.map (fun x => a.elem x.2.1) ++ ["\n"])) ("" :: "" :: (cells.map (fun x => a.chan x.2.2) ++ ["\n"]))
+    = blankHdr :: blankHdr :: (cells.map (hdrOf sh a) ++ [eolHdr]) := by
   simp only [zipHdr]
   rw [zipHdr_map]
   rfl
@@ -256,7 +287,10 @@ theorem readRows_render_aux {α : Type} (x : Ext α) (sh : Nat → String) (comm
     (h : RowsOK x sh a ci) :
     readRows x comma (a.chan ci) (renderRows sh a) = some (specImg x comma a ci) := by
   unfold renderRows readRows
-  simp only [List.cons_append, List.nil_append, List.length_cons, List.length_append, List.length_map, List.length_nil,
+  simp only [List.cons_append, List.nil_append, List.getD_cons_zero, List.getD_cons_succ, List.length_cons, List.length_append,
+    List.length_map, List.length_nil, Nat.max_self, List.drop_succ_cons, List.drop_zero]
+  rw [bcast_self _ _ (by simp), bcast_self _ _ (by simp)]
+  simp only [List.length_cons, List.length_append, List.length_map, List.length_nil,
     BEq.rfl, Bool.and_self, Bool.not_true, Bool.false_eq_true, if_false]
   rw [hdr_render]
   exact readRowsH_render x sh comma a ci h
